@@ -18,7 +18,7 @@ LEVEL = "exploration"
 BATCH = 25
 TIMEOUT = 120
 USES_LAB = False
-REQUIRED_OBS = ["lists_checked", "mode_default", "mode_brief", "mode_minimal", "mode_short", "lists_with_mixed_spelling", "classes_of_size_3plus", "lists_with_multiplicity_twins", "removals_executed", "cli_remove_duplicate_runs"]
+REQUIRED_OBS = ["lists_checked", "mode_default", "mode_brief", "mode_minimal", "mode_short", "lists_with_mixed_spelling", "classes_of_size_3plus", "lists_with_multiplicity_twins", "removals_executed", "cli_remove_duplicate_runs", "cross_format_lists_checked"]
 RULE = ("reaction lists of 4-40 reactions with planted classes of size 1-5: members are permutations of reactants/products, "
         "may repeat species, may differ only in temperature window or only in type, may use another spelling of the same "
         "species (e-/E-/E, #X with prefix '#' vs GX with prefix 'G'); modes {default, brief, minimal, short}; non-trivial = at "
@@ -110,6 +110,8 @@ def gen_cases(tier):
         c = make_list(random.Random(rng.getrandbits(64)))
         c["mode"] = [None, "brief", "minimal", "short"][i % 4]
         cases.append(c)
+    for _ in range(40 if tier == "quick" else 800):
+        cases.append(make_cross_format(random.Random(rng.getrandbits(64))))
     return cases
 
 
@@ -165,7 +167,58 @@ def cli_remove_duplicates(case, ctx, items, obs, viol):
                               f"per class in file order is {want[:10]} ({len(want)})"))
 
 
+def make_cross_format(rng):
+    """The same reactions read from a KIDA file and from a UMIST file of one network: a repeat is a repeat whichever reader produced it
+    (default and brief comparison; the string modes print format-specific type names)."""
+    names = ["H", "H2", "H+", "C", "C+", "O", "CO", "He", "He+", "OH", "e-"]
+    base = []
+    for i in range(rng.randint(3, 8)):
+        base.append({"reactants": [rng.choice(names) for _ in range(rng.choice([1, 2, 2]))], "products": [rng.choice(names) for _ in range(rng.choice([1, 2, 3]))],
+                     "tmin": float(rng.choice([10, 10, 50])), "tmax": float(rng.choice([300, 300, 41000])), "alpha": 1.0, "beta": 0.0, "gamma": 0.0, "pseudo": None,
+                     "formula": 3, "code": "NN", "idx": i + 1})
+    kida = [dict(r) for r in base] + [dict(rng.choice(base)) for _ in range(rng.randint(0, 2))]
+    umist = [dict(r) for r in rng.sample(base, rng.randint(1, len(base)))] + [dict(rng.choice(base), tmax=777.0)]
+    for r in umist:
+        if rng.random() < 0.5:
+            r["reactants"] = list(reversed(r["reactants"]))
+    return {"kind": "cross_format", "kida": kida, "umist": umist, "mode": rng.choice([None, "brief"]), "mixed": False, "items": []}
+
+
+def run_cross_format(case, ctx):
+    from naunet.network import Network
+    from naunet.species import Species
+    from ..gen import encode
+    obs, viol = Counter(), []
+    Species.reset()
+    d = ctx.fresh_dir("xf")
+    (d / "a.kida").write_text("\n".join(encode.kida_line(r) for r in case["kida"]) + "\n")
+    (d / "b.umist").write_text("\n".join(encode.umist_line(dict(r, idx=i + 1)) for i, r in enumerate(case["umist"])) + "\n")
+    mode = case["mode"]
+    try:
+        net = Network(filelist=[str(d / "a.kida"), str(d / "b.umist")], fileformats=["kida", "umist"])
+        dupes, dupidx, first = net.find_duplicate_reaction(mode)
+    except Exception as e:
+        return {"status": "violated", "violations": [violation("detector_raised", f"cross-format list: {type(e).__name__}: {e}")], "obs": {}}
+    items = case["kida"] + case["umist"]
+    if len(net.reaction_list) != len(items):
+        return {"status": "inconclusive", "violations": [], "obs": {}, "lost": "network dropped reactions"}
+    obs["cross_format_lists_checked"] += 1
+    obs["mode_" + (mode or "default")] += 1
+    def k(r):
+        kk = (tuple(sorted(r["reactants"])), tuple(sorted(r["products"])))
+        return kk if mode == "brief" else kk + (r["tmin"], r["tmax"])
+    keys = [k(r) for r in items]
+    exp_idx = [i for i, kk in enumerate(keys) if kk in keys[:i]]
+    if list(dupidx) != exp_idx:
+        viol.append(violation("duplicate_indices", f"KIDA + UMIST files, mode={mode}: reported {list(dupidx)}, pairwise reference {exp_idx} "
+                              f"({len(case['kida'])} KIDA lines then {len(case['umist'])} UMIST lines)"))
+    return {"status": "violated" if viol else "held", "violations": viol, "obs": dict(obs), "nontrivial": bool(exp_idx),
+            "sample": {"mode": mode, "cross_format": True, "n": len(items)}}
+
+
 def run_case(case, ctx):
+    if case.get("kind") == "cross_format":
+        return run_cross_format(case, ctx)
     from naunet.network import Network
     from naunet.reactions.reaction import Reaction
     from naunet.reactiontype import ReactionType as RT
